@@ -310,8 +310,8 @@ func VerifHarness_C06_cancel_queued() {
 	for c := 0; c < callers; c++ {
 		id := int64(100 * (c + 1))
 		rt.Assert(seen[id] <= 1, "C06.cancel_queued.at_most_once")
-		if results[c] == nil {
-			rt.Assert(seen[id] == 1, "C06.cancel_queued.nil_means_exported")
+		if results[c] == nil && !early {
+			rt.Assert(seen[id] == 1, "C06.cancel_queued.nil_means_exported") // (with early_return nil only means queued: C05's business)
 		}
 	}
 	for _, cancel := range cancels {
